@@ -944,6 +944,12 @@ class SupportComplexDataType(Element):
 
         # This will change the structure of the Field/Component so it is done only if the structure
         # is really changed. That's because the first time the datatype is set by the Element._find_structure method
+        if hasattr(self, 'children') and len(self.children) >= 1 and \
+                not is_base_datatype(self.datatype, self.version):
+            # refuse before touching the structure, otherwise the element would keep its children
+            # but describe (and encode) the ones of the new datatype
+            raise OperationNotAllowed("Cannot change datatype: the Element already contains children")
+
         if not is_base_datatype(datatype, self.version) and \
                 datatype not in ('varies', None, self.datatype) and self.datatype is not None:
             reference = load_reference(datatype, 'Datatypes_Structs', self.version)
